@@ -1,9 +1,205 @@
 import Olla.Driver.Util
+import Olla.Model.Bucket
+import Olla.Model.Admission
+import Olla.Spec.C17
 
 namespace Olla.Driver.C17
-open Lean Olla.Driver
+open Lean Olla.Driver Olla.Model.Bucket Olla.Model.Admission Olla.Spec.C17
 
-/-- placeholder until the C17 driver is written -/
-def main : IO Unit := pure ()
+def parseLimits (j : Json) : Limits × Int :=
+  ({ global := jint (jget j "global"), perIP := jint (jget j "per_ip"), health := jint (jget j "health"),
+     burst := jint (jget j "burst") }, jint (jget j "max_body"))
+
+def declaredOf (body : Int) : Option Nat := if body < 0 then none else some body.toNat
+
+/-- Refill that could have happened during `span` ns, in whole tokens (allowance for concurrent scenarios). -/
+def refillAllowance (rate span : Int) : Int := if rate ≤ 0 then 0 else (rate * span) / unit + 1
+
+def minI (a b : Int) : Int := if a ≤ b then a else b
+
+/-! ### kind "chain": the real validator chain, in process -/
+
+def chainModel (lim : Limits) (maxBody : Int) (reqs : List (String × Bool × Int)) (times : List Int) : List Bool :=
+  let rs : List Req := (reqs.zip times).map (fun x => ⟨x.2, (x.1.1, 0), x.1.2.1⟩)
+  let t0 := times.headD 0
+  let dec := rateRun lim (RState.init lim t0) rs
+  (dec.zip reqs).map (fun x => x.1.2 && sizeAllowed maxBody (declaredOf x.2.2.2))
+
+def handleChain (case : Nat) (j : Json) : IO Unit := do
+  let (lim, maxBody) := parseLimits (jget j "lim")
+  let reqs := (jarr (jget j "reqs")).map (fun r => (jstr (jget r "client"), jbool (jget r "health"), jint (jget r "body")))
+  let impl := jget j "impl"
+  let obs := jarr (jget impl "obs")
+  let err := jstr (jget impl "err")
+  let t0s := obs.map (fun o => jint (jget o "t0"))
+  let t1s := obs.map (fun o => jint (jget o "t1"))
+  let allowed := obs.map (fun o => jbool (jget o "allowed"))
+  let m0 := chainModel lim maxBody reqs t0s
+  let m1 := chainModel lim maxBody reqs t1s
+  let agree := err == "" && obs.length == reqs.length && (allowed == m0 || allowed == m1)
+  -- spec: every (client, class) with a positive limit stays within burst + rate·t
+  let keys := (reqs.map (fun r => (r.1, r.2.1))).eraseDups
+  let rows := reqs.zip (t0s.zip (t1s.zip allowed))
+  let bad := keys.filter (fun k =>
+    let limit := limitFor lim k.2
+    limit > 0 && lim.burst ≥ 0 &&
+      !(withinBound limit lim.burst ((rows.filter (fun x => x.1.1 == k.1 && x.1.2.1 == k.2)).map (fun x => ⟨x.2.1, x.2.2.1, x.2.2.2⟩))))
+  let spec := bad.isEmpty
+  let branch := "chain"
+    ++ (if lim.global > 0 then "+global" else "")
+    ++ (if lim.perIP ≤ 0 then "+bypass" else "")
+    ++ (if reqs.any (·.2.1) then "+health" else "")
+    ++ (if maxBody > 0 && reqs.any (fun r => r.2.2 > maxBody || r.2.2 < 0) then "+size" else "")
+    ++ (if m0.all id then "+all-admitted" else if m0.any id then "+some-refused" else "+none-admitted")
+  emit case agree spec branch (if spec then "" else "validator-chain-exceeds-bucket-bound")
+    (if spec && agree then "" else s!"limits global {lim.global} per-ip {lim.perIP} health {lim.health} burst {lim.burst} max-body {maxBody}: chain answered {allowed}, model {m0}; keys over the bound: {bad}; err '{err}'")
+    (Json.mkObj [("allowed", toJson m0)])
+
+/-! ### kind "rate": production stack -/
+
+structure RObs where
+  port : Nat
+  route : String
+  send : Int
+  recv : Int
+  status : Nat
+  err : String
+
+def routeOf (s : String) : Route :=
+  if s == "proxy" || s == "provider" then .proxy else if s == "anthropic" then .translator else .internal
+
+def proxied (s : String) : Bool := s == "proxy" || s == "provider" || s == "anthropic"
+
+/-- Expected status of every request, model driven in plan order with the given decision times. -/
+def rateModel (lim : Limits) (obs : List RObs) (times : List Int) : List Nat :=
+  let t0 := times.headD 0
+  let rec go (st : RState) : List (RObs × Int) → List Nat
+    | [] => []
+    | (o, t) :: rest =>
+      if chainMounted activeGuard (routeOf o.route) then
+        let x := rateStep lim st (toReq activeKey ⟨t, ⟨"127.0.0.1", o.port⟩, false⟩)
+        (if x.1 then 200 else refusalStatus activeRefusal .rateLimited) :: go x.2 rest
+      else 200 :: go st rest
+  go (RState.init lim t0) (obs.zip times)
+
+def handleRate (case : Nat) (j : Json) : IO Unit := do
+  let sc := jget j "scenario"
+  let impl := jget j "impl"
+  if jstr (jget impl "start_err") != "" then
+    emit case false true "start-error" "" (jstr (jget impl "start_err")); return
+  let (lim, _) := parseLimits (jget sc "lim")
+  let conc := jbool (jget sc "concurrent")
+  let obs : List RObs := (jarr (jget impl "obs")).map (fun o =>
+    { port := jnat (jget o "port"), route := jstr (jget o "route"), send := jint (jget o "send"), recv := jint (jget o "recv"),
+      status := jnat (jget o "status"), err := jstr (jget o "err") })
+  let statuses := obs.map (·.status)
+  let noErr := obs.all (·.err == "")
+  let refusal := refusalStatus activeRefusal .rateLimited
+  let guarded := obs.filter (fun o => chainMounted activeGuard (routeOf o.route))
+  let span := (obs.map (·.recv)).foldl max 0
+  let agree :=
+    if !conc then
+      noErr && (statuses == rateModel lim obs (obs.map (·.send)) || statuses == rateModel lim obs (obs.map (·.recv)))
+    else
+      -- concurrent senders: x/time/rate may admit FEWER than the ideal bucket, never more
+      let keys := (guarded.map (fun o => clientKey activeKey ⟨"127.0.0.1", o.port⟩)).eraseDups
+      let okStatuses := obs.all (fun o => o.status == 200 || (chainMounted activeGuard (routeOf o.route) && o.status == refusal))
+      let unguardedOK := (obs.filter (fun o => !chainMounted activeGuard (routeOf o.route))).all (·.status == 200)
+      let perKey := keys.all (fun k =>
+        let mine := guarded.filter (fun o => clientKey activeKey ⟨"127.0.0.1", o.port⟩ == k)
+        let adm : Int := (mine.filter (·.status == 200)).length
+        if lim.perIP ≤ 0 then adm == mine.length
+        else adm ≤ minI mine.length (max lim.burst 0 + refillAllowance lim.perIP span - 1))
+      let glob :=
+        if lim.perIP ≤ 0 || lim.global ≤ 0 then true
+        else ((guarded.filter (·.status == 200)).length : Int) ≤ max lim.burst 0 + refillAllowance lim.global span - 1
+      noErr && okStatuses && unguardedOK && perKey && glob
+  -- spec on what the implementation did: all proxied requests of this client IP
+  let px := obs.filter (fun o => proxied o.route)
+  let toObs (l : List RObs) : List Obs := l.map (fun o => ⟨o.send, o.recv, o.status == 200⟩)
+  let rated := lim.perIP > 0 && lim.burst ≥ 0
+  let b1 := !rated || withinBound lim.perIP lim.burst (toObs px)
+  let b2 := px.all (fun o => excess429 (o.status == 200) o.status)
+  let spec := b1 && b2
+  let sig :=
+    if spec then "" else
+    if !b1 then
+      let g := px.filter (fun o => o.route != "anthropic")
+      if withinBound lim.perIP lim.burst (toObs g) then "translator-route-not-rate-limited"
+      else
+        let ports := (g.map (·.port)).eraseDups
+        if ports.all (fun p => withinBound lim.perIP lim.burst (toObs (g.filter (·.port == p)))) then "rate-limit-bucket-per-connection"
+        else "rate-limit-bound-exceeded"
+    else "rate-limit-refusal-status-not-429"
+  let nports := ((obs.map (·.port)).eraseDups).length
+  let branch := (if conc then "rate-concurrent" else "rate-sequential")
+    ++ (if nports > 1 then "+multi-conn" else "+one-conn")
+    ++ (if obs.any (·.route == "anthropic") then "+translator" else "")
+    ++ (if obs.any (·.route == "health") then "+health" else "")
+    ++ (if lim.global > 0 then "+global" else "")
+    ++ (if statuses.all (· == 200) then "+all-admitted" else "+some-refused")
+  let admitted := (px.filter (·.status == 200)).length
+  emit case agree spec branch sig
+    (if spec && agree then "" else
+      s!"per-ip {lim.perIP}/min burst {lim.burst} global {lim.global}: {px.length} proxied requests over {nports} connection(s) within {span / 1000000} ms, {admitted} reached a backend; statuses {statuses}; routes {obs.map (·.route)}; model {rateModel lim obs (obs.map (·.send))}")
+    (Json.mkObj [("statuses", toJson (rateModel lim obs (obs.map (·.send))))])
+
+/-! ### kind "size" -/
+
+def handleSize (case : Nat) (j : Json) : IO Unit := do
+  let sc := jget j "scenario"
+  let impl := jget j "impl"
+  if jstr (jget impl "start_err") != "" then
+    emit case false true "start-error" "" (jstr (jget impl "start_err")); return
+  let (_, maxBody) := parseLimits (jget sc "lim")
+  let amax := jnat (jget sc "anthropic_max")
+  let items := jarr (jget sc "items")
+  let obs := jarr (jget impl "obs")
+  let rows := items.zip obs
+  let results := rows.map (fun (it, o) =>
+    let route := jstr (jget it "route")
+    let size := jnat (jget it "size")
+    let chunked := jbool (jget it "chunked")
+    let status := jnat (jget o "status")
+    let bb := jint (jget o "backend_body")
+    let forwarded : Option Nat := if bb < 0 then none else some bb.toNat
+    let declared : Option Nat := if chunked then none else some size
+    if route == "anthropic" then
+      -- the chain is only consulted if it is mounted on translator routes
+      let chainOut := if chainMounted activeGuard .translator then bodyPath activeBody maxBody declared size else ⟨false, some size, size⟩
+      let (st, _) := anthropicCheck amax size
+      let agree :=
+        if chainOut.refused then status == refusalStatus activeRefusal .bodyTooLarge && forwarded == none
+        else if st == 413 then status == 413 && forwarded == none
+        else status == 200 && forwarded.isSome
+      let spec := anthropic413 amax size status forwarded
+      (agree, spec, if spec then "" else "anthropic-oversize-not-413", s!"anthropic {size}B chunked={chunked} (max_message_size {amax}): status {status}, backend got {bb}")
+    else
+      let out := bodyPath activeBody maxBody declared size
+      let agree :=
+        if out.refused then status == refusalStatus activeRefusal .bodyTooLarge && forwarded == none
+        else status == 200 && forwarded == some size
+      let spec := noOversize maxBody size ⟨false, forwarded, 0⟩
+      (agree, spec, if spec then "" else (if chunked then "chunked-body-bypasses-size-limit" else "oversize-body-forwarded"),
+        s!"{route} {size}B chunked={chunked} (max_body_size {maxBody}): status {status}, backend got {bb}"))
+  let agree := obs.length == items.length && results.all (·.1)
+  let spec := results.all (·.2.1)
+  let failing := results.filter (fun r => !r.2.1)
+  let sig := (failing.map (·.2.2.1)).headD ""
+  let disagree := results.filter (fun r => !r.1)
+  emit case agree spec "size" sig
+    (if spec && agree then "" else
+      "; ".intercalate ((failing ++ disagree).map (·.2.2.2)))
+    Json.null
+
+def handle (j : Json) : IO Unit := do
+  let case := jnat (jget j "case")
+  let kind := jstr (jget j "kind")
+  if kind == "chain" then handleChain case j
+  else if kind == "rate" then handleRate case j
+  else if kind == "size" then handleSize case j
+  else emit case false true "unknown-kind" "" kind
+
+def main : IO Unit := do forLines (← IO.getStdin) handle
 
 end Olla.Driver.C17
